@@ -247,4 +247,16 @@ def rowOf (facts : Array LangFacts) (k : LangConsts) (lang : Nat) : Row :=
     html := lang = k.html, python := lang = k.python,
     nlEndsString := lang = k.javaScript ∨ lang = k.perl }
 
+open LC.Utf8 in
+/-- delimiters never contain a newline -/
+def Row.WF (R : Row) : Prop :=
+  (∀ s ∈ R.singles, (10 : Rune) ∉ s) ∧ (∀ m ∈ R.multis, (10 : Rune) ∉ m.1 ∧ (10 : Rune) ∉ m.2)
+
+/-- `IsChain R l`: every two consecutive elements of `l` are related by `R`
+(core Lean 4.33 has no `List.IsChain`/`List.Chain'`; same constructors as Mathlib's `List.IsChain`). -/
+inductive IsChain {α : Type} (R : α → α → Prop) : List α → Prop
+  | nil : IsChain R []
+  | singleton (a : α) : IsChain R [a]
+  | cons_cons {a b : α} {l : List α} : R a b → IsChain R (b :: l) → IsChain R (a :: b :: l)
+
 end LC.Lexer
